@@ -2,8 +2,9 @@
   The state reads of `auth_check`, in call order: which `(type, state_key)` pairs the real
   `fetch_state` closure is asked for, given the event and the state (reads depend on earlier
   answers). Mirrors the control flow of `Model/Auth.lean`; tied to the recorded reads of the real
-  `auth_check` by T2 (`c09.reads`) and to `authCheck` by `Props/C09.lean`
-  (`authCheck_congr_on_reads`: the decision depends on the state at these pairs only).
+  `auth_check` by T2 (`c09.reads`). `Props/C09.lean` proves that these reads lie inside the selected
+  auth types (`model_reads_within_selection`); non-interference itself is proven on `authCheck`
+  directly (`authCheck_reads_subset`) and does not depend on this file.
 -/
 import RumaModel.Model.Auth
 namespace Ruma.Auth
